@@ -38,7 +38,14 @@ def main():
     tmp = tempfile.mkdtemp(prefix='segno-mutant-', dir='/tmp')
     repo = os.path.join(tmp, 'repo')
     try:
-        subprocess.run(['git', '-C', '/repo', 'worktree', 'add', '--detach', '-f', repo, 'HEAD'], check=True, capture_output=True)
+        for attempt in range(6):        # (parallel campaigns: `git worktree add` takes a lock on the repository)
+            r = subprocess.run(['git', '-C', '/repo', 'worktree', 'add', '--detach', '-f', repo, 'HEAD'], capture_output=True, text=True)
+            if r.returncode == 0:
+                break
+            time.sleep(1 + attempt)
+        else:
+            print('CANNOT CREATE WORKTREE: %s' % r.stderr[:200])
+            return 2
         r = subprocess.run(['git', '-C', repo, 'apply', '--whitespace=nowarn', patch], capture_output=True, text=True)
         if r.returncode != 0:
             print('PATCH DOES NOT APPLY: %s' % r.stderr[:300])
